@@ -423,6 +423,9 @@ package keeper
 //@   ensures[C06.nonce_exactly_plus_one] err == nil ==> (acctSeq[layer(sdk.UnwrapSDKContext(goCtx))][bech32Bytes(msg.From)] == decNonce(bytes(msg.MarshalledTx)) + 1 && !trFlagNonce[layer(sdk.UnwrapSDKContext(goCtx))])
 //@   ensures[C06.nonce_matched_sequence] err == nil ==> old(acctSeq[layer(sdk.UnwrapSDKContext(goCtx))][bech32Bytes(msg.From)]) == decNonce(bytes(msg.MarshalledTx)) + (old(trFlagNonce[layer(sdk.UnwrapSDKContext(goCtx))]) ? 1 : 0)
 //@   ensures[C04.tx_conserves_supply] err == nil ==> (forall den string :: bankSupply[layer(sdk.UnwrapSDKContext(goCtx))][den] <= old(bankSupply[layer(sdk.UnwrapSDKContext(goCtx))][den]))
+// (lemma, assert-then-assume) the decoded logs are pairwise distinct non-nil objects: carried to the call that reads the
+// log counter so that fillLogIndexes' preconditions do not depend on solver luck
+//@   at call keeper.Keeper.GetCumulativeLogCountTransient@1 assert[C13.lemma_decoded_logs_distinct] (forall a int :: (0 <= a && a < len(receipt.Logs)) ==> receipt.Logs[a] != nil) && (forall a int, b int :: (0 <= a && a < b && b < len(receipt.Logs)) ==> receipt.Logs[a] != receipt.Logs[b])
 //@   at call GetSdkEventForReceipt@1 assert[C13.event_tx_index] receipt.TransactionIndex == max(1, trCount[layer(ctx)]) - 1
 //@   at call GetSdkEventForReceipt@1 assert[C13.event_gas_used] receipt.GasUsed == response.GasUsed && response.GasUsed == trGas[layer(ctx)][max(1, trCount[layer(ctx)]) - 1]
 //@   at call GetSdkEventForReceipt@1 assert[C13.event_receipt_is_stored_receipt] rlpReceipt(receipt.Type, receipt.Status, receipt.CumulativeGasUsed, receipt.Bloom, base(receipt.Logs), off(receipt.Logs), len(receipt.Logs)) == trReceipt[layer(ctx)][max(1, trCount[layer(ctx)]) - 1]
